@@ -196,6 +196,10 @@ private:
       auto startResult = _transport->start();
       if (startResult.isErr())
       {
+        // Leave the client uninitialised: a kept-but-dead transport would make
+        // setTlsConfig() refuse the corrected settings and later requests
+        // dereference the DNS client that was never created.
+        _transport.reset();
         throw std::runtime_error("Failed to start HTTP client transport layer");
       }
 
